@@ -179,6 +179,7 @@ theorem lEffect_mem {m : LMut} {xs xs' : Items} (h : lEffect m xs = .ok xs') :
       simp only [List.mem_filterMap] at hp
       obtain ⟨i, _, hi⟩ := hp
       exact .inl (List.mem_of_getElem? hi)
+  | sortFail => simp [lEffect] at h
   | clear =>
       simp only [lEffect] at h
       injection h with h; subst h
